@@ -171,6 +171,8 @@ type History struct {
 	Divergences       []*ReplicaDivergence
 	PreconditionLost  string // non-empty: the documented election precondition was lost
 	RejectedProposals int
+	// OwnAbandoned counts round changes in which a test replica built its own (undecided) proposal.
+	OwnAbandoned int
 	EpochTransitions  int
 	lastEpoch         uint64
 }
@@ -509,6 +511,39 @@ func (h *History) Step() bool {
 					h.Divergences = append(h.Divergences, &ReplicaDivergence{Replica: r.Cfg.Name, Path: path.String(), Height: height, What: "honest-proposal-rejected"})
 				}
 			case PathRoundChange:
+				if h.Rng.IntN(2) == 0 {
+					// Round 0: this replica is the proposer and builds (and executes) its own valid
+					// proposal with other contents; it is not decided. Round 1: the block of another
+					// proposer is decided. Nothing of the abandoned proposal may leak into it.
+					vals := h.ValSets[height].Sorted()
+					ap := vals[h.Rng.IntN(len(vals))]
+					if an := h.Sc.NodeByConsensusAddr(ap.Addr); an != nil {
+						own := *b
+						own.Proposer = ap.Addr
+						own.Time = b.Time.Add(-2 * time.Millisecond)
+						user := append([][]byte(nil), b.Txs[:len(b.Txs)-1]...)
+						switch h.Rng.IntN(3) {
+						case 0:
+							user = user[:len(user)/2]
+						case 1:
+							user = user[len(user)/2:]
+						}
+						r.SetConsensusSigner(an.Keys.Consensus.Signer)
+						if txs := r.Prepare(&own, user); len(txs) > 0 && h.Rng.IntN(2) == 0 {
+							own.Txs = txs
+							own.Hash = blockHash(&own)
+							r.Process(&own)
+						}
+						h.OwnAbandoned++
+					}
+					if h.Rng.IntN(2) == 0 {
+						if !r.Process(b) {
+							h.RejectedProposals++
+							h.Divergences = append(h.Divergences, &ReplicaDivergence{Replica: r.Cfg.Name, Path: path.String(), Height: height, What: "honest-proposal-rejected-after-own-abandoned-proposal"})
+						}
+					}
+					break
+				}
 				alt := *b
 				alt.Txs = append([][]byte(nil), b.Txs[:len(b.Txs)-1]...)
 				if len(alt.Txs) > 0 {
